@@ -940,3 +940,20 @@ func checkFDIndex(w *World, r *Report) {
 	r.Floor("fdindex", 1)
 	_ = n
 }
+
+// runFlagReduceIn: the flagreduce rule (with its control) on the library
+// functions of the packages whose path ends in one of the suffixes.
+func runFlagReduceIn(w *World, r *Report, suffixes ...string) {
+	var fns []*ssa.Function
+	for _, f := range w.LibFuncs() {
+		p := fnPkgPath(f)
+		for _, sfx := range suffixes {
+			if strings.HasSuffix(p, sfx) {
+				fns = append(fns, f)
+				break
+			}
+		}
+	}
+	RunFlagReduce(w, r, fns, strings.Join(suffixes, ","))
+	RunControl(r, "flagreduce", "ctlFlagReduce", func(cw *World, cr *Report, cf []*ssa.Function) { RunFlagReduce(cw, cr, cf, "controls") })
+}
